@@ -2,7 +2,7 @@
 //! by the queue/sink harnesses (every entry carries a unique id, so histories are unambiguous).
 
 use crate::rng::Rng;
-use crate::sync::{is_miri, ticket};
+use crate::sync::{is_miri, progress_tick, ticket};
 use metrique_writer_core::{
     Entry, EntryConfig, EntryIoStream, EntryWriter, IoStreamError, Observation, Unit,
     ValidationError, Value, ValueWriter, value::MetricFlags,
@@ -326,6 +326,7 @@ impl EntryIoStream for ScriptedStream {
             log.push(Ev::Next { kind, ticket: ticket(), outcome });
         }
         sh.consumed.fetch_add(1, Ordering::SeqCst);
+        progress_tick();
         if is_id {
             sh.consumed_ids.fetch_add(1, Ordering::SeqCst);
         }
